@@ -279,7 +279,7 @@ fn depth_stats(lo: u32, hi: u32, s0: u32, e0: u32, s1: u32, e1: u32) -> (u64, u6
 // @kind stretch
 // @timeout 5400
 // @mem 40
-// @rss 28
+// @rss 32
 // @functions bigbedwrite::process_val_zoom (coverage sweep + tiling into zoom records), two consecutive calls from the empty per-chromosome state, one zoom level
 // @bounds 2 entries with coordinates in 0..=7, start-sorted, any overlap relation; a third entry to the right (start 9) keeps the chromosome open; resolution 3; items_per_slot 8 (no mid-way flush)
 // @stubs tokio Handle::spawn -> counted/discarded; mpsc Sender -> always-ready log; Vec::push -> push within capacity (asserted); index_list::IndexList -> 4-slot sequence model by one source substitution of the `use` line; mpsc Sender::poll_ready/start_send -> always-ready log. (The await points inside the sweep loops make the coroutine lowering merge the nested loop heads, so the single unwinding bound of 24 is a budget for the TOTAL number of sweep/tiling iterations of one call; removing the awaits by substitution un-merges the loops and the nested unwinding ran out of memory)
